@@ -536,7 +536,27 @@ int main(int argc, char** argv) {
         if (want("raw") && it % 2 == 0) {
             uint64_t mask = g.next();
             std::string id = out.add("raw", hex_u64(mask & 0xff) + " " + hex_bytes(bytes.data(), bytes.size()));
-            out.I(id, "-");
+            // what read_rawcells recorded: name table, byte ranges, resolved dependencies (versus GdsRaw.read_rawcells_model)
+            out.I(id, in_child([&](FILE* o2) {
+                ErrorCode err = ErrorCode::NoError;
+                Map<RawCell*> rc = read_rawcells(path.c_str(), &err);
+                if (err != ErrorCode::NoError && err != ErrorCode::MissingReference) { fprintf(o2, "ERR %d", (int)err); return; }
+                std::vector<std::string> lines;
+                for (MapItem<RawCell*>* it2 = rc.next(NULL); it2; it2 = rc.next(it2)) {
+                    RawCell* r = it2->value;
+                    std::vector<std::string> deps;
+                    for (uint64_t k = 0; k < r->dependencies.count; k++) deps.push_back(hexs(r->dependencies[k]->name));
+                    std::sort(deps.begin(), deps.end());
+                    std::string l = " K " + hexs(it2->key) + " " + hexs(r->name) + " " + std::to_string(r->offset) + " " + std::to_string(r->size) + " D";
+                    for (auto& d : deps) l += " " + d;
+                    lines.push_back(l);
+                }
+                std::sort(lines.begin(), lines.end());
+                std::string all = "RAW " + std::to_string(lines.size());
+                for (auto& l : lines) all += l;
+                all += std::string(" missing=") + (err == ErrorCode::MissingReference ? "1" : "0");
+                fputs(all.c_str(), o2);
+            }, 20));
             std::string r2 = in_child([&](FILE* o2) {
                 ErrorCode err = ErrorCode::NoError;
                 Map<RawCell*> rc = read_rawcells(path.c_str(), &err);
